@@ -314,8 +314,12 @@ def rbf_predicate(c):
             f.append(("C17_rbf_sigfield_mismatch_refuted",
                       "witness: closer_and_closee over a one-output tx no longer reproduced: %s" % ms))
     if nm == "w_locktime":
-        lastB = B["steps"][-1]["st"]
-        if not (lastB["s"] == "Dead" and lastB["err"] == 12):
+        # whichever offer is delivered first is rejected by the honest closee
+        lasts = [n["steps"][-1]["st"] for n in (A, B) if n["steps"]]
+        rejected = any(l["s"] == "Dead" and l["err"] == 12 for l in lasts)
+        completed = any(st["st"]["s"] == "Negotiation" and st["st"]["l"]["k"] == "Pending"
+                        for n in (A, B) for st in n["steps"])
+        if not rejected or completed:
             f.append(("C17_rbf_locktime_refuted",
-                      "witness: BlockHeight 7 no longer makes the closee reject the offer: %s" % lastB))
+                      "witness: BlockHeight 7 no longer makes the closee reject the offer: %s" % lasts))
     return f
